@@ -1,11 +1,11 @@
 #!/bin/sh
 # usage: tools/run_all.sh quick|thorough [seed]   - runs every registered check in turn, prints one summary line each
 tier=${1:-quick}; seed=${2:-0}
-cd /verif
+cd "$(dirname "$0")/.."
 for p in C01 C02 C03 C04 C05 C06 C07 C08 C09 C10 C11 C12 C13 C14 C15 C16 C17 C18; do
   s=$(date +%s)
-  VERIF_SEED=$seed PYTHONHASHSEED=0 /venv/bin/python -m checks.run $p --tier $tier > /tmp/run_$p.$tier.log 2>&1
+  VERIF_SEED=$seed PYTHONHASHSEED=0 /venv/bin/python -m checks.run $p --tier $tier > /tmp/run_$$_$p.$tier.log 2>&1
   rc=$?
   e=$(date +%s)
-  echo "$p tier=$tier seed=$seed exit=$rc wall=$((e-s))s $(grep -c '^VIOLATION' /tmp/run_$p.$tier.log) violations $(grep -c '^KNOWN-FINDING' /tmp/run_$p.$tier.log) known"
+  echo "$p tier=$tier seed=$seed exit=$rc wall=$((e-s))s $(grep -c '^VIOLATION' /tmp/run_$$_$p.$tier.log) violations $(grep -c '^KNOWN-FINDING' /tmp/run_$$_$p.$tier.log) known"
 done
